@@ -56,6 +56,7 @@ type AlphaCfg struct {
 	EnsureLen   int                        // >0: the alphabet is SigmaEnsure(EnsureLen, Values) instead
 	NoRootAdd   bool                       // drop add "" and copy from "" (not offered by the legacy package)
 	MaxFroms    int                        // >0: at most this many resolvable move/copy sources (evenly spread), plus the misses and ghosts
+	NewNames    []string                   // further absent member names offered as targets under every object (besides "zz"): names that need escaping on output
 	Custom      func(d *rj.Value) []r69.Op // a hand-picked alphabet instead of Sigma(D) (scale documents)
 	RootOnly    bool                       // keep only operations whose path is "" (whole-document add / replace)
 	InteriorNeg bool                       // also address the children of a last array element through the token -1 (negative index as an interior token)
@@ -180,6 +181,17 @@ func SigmaFrom(d *rj.Value, cfg *AlphaCfg, orig *rj.Value) []r69.Op {
 		return SigmaEnsure(cfg.EnsureLen, cfg.Values)
 	}
 	all, res := pointers(d, cfg.InteriorNeg)
+	if len(cfg.NewNames) > 0 {
+		for _, pi := range res {
+			if pi.Node != nil && pi.Node.K == rj.Obj {
+				for _, n := range cfg.NewNames {
+					if _, has := pi.Node.Get(n); !has {
+						all = append(all, ptrInfo{pi.P + "/" + r69.EncodeToken(n), nil})
+					}
+				}
+			}
+		}
+	}
 	if cfg.NoRootPtr {
 		all, res = all[1:], res[1:]
 	}
